@@ -111,7 +111,8 @@ func execC13(c C13Case) *Failure {
 		return func(ctx context.Context, r *http.Request) context.Context {
 			order, _ := ctx.Value(c13Key("order")).(string)
 			ctx = context.WithValue(ctx, c13Key("order"), order+fmt.Sprint(i))
-			if i == 0 {
+			if i == 0 || c.Mode == ModeLegacy {
+				// (the legacy server keeps one context function: every candidate derives the token)
 				ctx = context.WithValue(ctx, c13Key("token"), r.Header.Get("X-Token"))
 			}
 			return ctx
@@ -167,8 +168,11 @@ func execC13(c C13Case) *Failure {
 	var opt WorldOpt
 	nfuncs := c.CtxFuncs
 	if c.Mode == ModeLegacy {
-		nfuncs = 1
-		opt.SSEOpts = []mcp.SSEOption{mcp.WithSSEContextFunc(ctxFunc(0))}
+		// the option may be given several times: whichever of the functions the server runs, it runs them in the order given,
+		// and the one given last is among them
+		for i := 0; i < nfuncs; i++ {
+			opt.SSEOpts = append(opt.SSEOpts, mcp.WithSSEContextFunc(ctxFunc(i)))
+		}
 		if c.NoFilter&1 == 0 {
 			opt.SSEOpts = append(opt.SSEOpts, mcp.WithSSEToolListFilter(toolFilter))
 		}
@@ -366,7 +370,16 @@ func execC13(c C13Case) *Failure {
 				if c.Mode != ModeLegacy && m["mw"] != tok {
 					return Failf("C13/foreign-context-value", "%s: the middleware saw token %v", where, m["mw"])
 				}
-				if m["order"] != wantOrder {
+				if c.Mode == ModeLegacy {
+					got, _ := m["order"].(string)
+					inc := got != "" && got[len(got)-1] == wantOrder[len(wantOrder)-1]
+					for k := 1; k < len(got); k++ {
+						inc = inc && got[k-1] < got[k]
+					}
+					if !inc {
+						return Failf("C13/context-func-order", "%s: of the context functions given as options 0..%d the server ran %q (in that order)", where, nfuncs-1, got)
+					}
+				} else if m["order"] != wantOrder {
 					return Failf("C13/context-func-order", "%s: context functions ran in order %v, registered order is %q", where, m["order"], wantOrder)
 				}
 				if conns[i].SessionID != "" && m["session"] != conns[i].SessionID {
